@@ -1,5 +1,7 @@
 import Afkak.Monitor.C15
 import AfkakProofs.Assign.Facts
+import AfkakProofs.Assign.Metadata
+import AfkakProofs.Assign.Total
 /-!
 # C15 — Group assignment gives every partition to exactly one subscribed member
 
@@ -108,6 +110,58 @@ theorem C15_end_to_end (members : List Member) (tp : Dict Str (List Int)) (encs 
   obtain ⟨e1, e2, e3⟩ := C15_exactly_once members tp asg hwf h1
   exact ⟨_, h2, e3, e1, e2, C15_only_subscribed members tp asg hwf h1, C15_balanced members tp asg hwf h1⟩
 
+/-- Under explicit range hypotheses on the leader's input — topic names ASCII and at most 32767
+    characters, partition ids int32 (`TpInRange`), fewer than 2^31 partitions of subscribed topics in
+    total — the encoding step of `generate_assignments` cannot raise: whenever the round-robin step
+    produces an assignment, every listed member gets its bytes, decodes exactly its own map from
+    them, and what the members decode satisfies every demand of C15. -/
+theorem C15_in_range_total (members : List Member) (tp : Dict Str (List Int)) (asg : Asg)
+    (hwf : wellFormed members tp = true) (hr : TpInRange tp)
+    (hcount : (atpOf tp (allTopics (memberMetadata members))).length < 2147483648)
+    (h : roundRobin (memberMetadata members) tp = .ok asg) :
+    ∃ encs, generateAssignments members tp = .ok encs ∧ observe encs = some (perMember asg members) ∧
+      answersAll members (perMember asg members) = true ∧ exactlyOnce members tp (perMember asg members) = true ∧
+      nothingElse members tp (perMember asg members) = true ∧ onlySubscribed members (perMember asg members) = true ∧
+      balanced members (perMember asg members) = true := by
+  obtain ⟨encs, henc⟩ := encodeEach_total h hr hcount members
+  have hgen : generateAssignments members tp = .ok encs := by simp only [generateAssignments, h, henc]
+  obtain ⟨asg', h1, h2⟩ := C15_member_decodes_own members tp encs hgen
+  have : asg' = asg := by rw [h] at h1; exact (Except.ok.inj h1).symm
+  subst this
+  obtain ⟨e1, e2, e3⟩ := C15_exactly_once members tp asg' hwf h
+  exact ⟨encs, hgen, h2, e3, e1, e2, C15_only_subscribed members tp asg' hwf h, C15_balanced members tp asg' hwf h⟩
+
+/-- The member-metadata codec: `decode_join_group_protocol_metadata` gives back the version, the
+    subscriptions (any Unicode text: UTF-8 round trip through CPython-strict decoding) and the user
+    data that `encode_join_group_protocol_metadata` was given, whenever the encoder did not raise. -/
+theorem C15_metadata_roundtrip (v : Int) (subs : List Str) (ud bs : Bytes)
+    (h : encodeMetadata v subs ud = .ok bs) : decodeMetadata bs = .ok (v, subs, some ud) :=
+  decodeMetadata_encode h
+
+/-- The UTF-8 decoder's fuel (one unit per byte) is never exhausted, and it inverts the encoder. -/
+theorem C15_utf8 (s : Str) (b : Bytes) :
+    utf8Decode b ≠ .error .diverges ∧ (utf8Encode s = .ok b → utf8Decode b = .ok s) :=
+  ⟨utf8DecodeFuel_ne_diverges b.length b (Nat.le_refl _), utf8Decode_encode⟩
+
+/-- On the wire-level member list (ids with the metadata bytes each member produced with
+    `join_group_protocols`), `generate_assignments` is the assignment of the decoded members — so
+    every theorem above holds for the byte-level entry point. -/
+theorem C15_wire_members (ms : List Member) (w : List (Str × Bytes)) (tp : Dict Str (List Int))
+    (h : wireOf ms = .ok w) : generateAssignmentsB w tp = generateAssignments ms tp :=
+  generateAssignmentsB_wireOf h tp
+
+/-- The leader's two calls in `_join_and_sync`: the first (`topic_partitions={}`) either hits the
+    assertion (nobody subscribed to anything) or asks for exactly the subscribed topics; if
+    `_load_topic_partitions` answers with an entry for every topic it was asked for, the second call
+    cannot ask again: it is the round-robin assignment over the loaded map, encoded per member. -/
+theorem C15_leader_glue (w : List (Str × Bytes)) (ms : List Member) (hd : decodeMembers w = .ok ms)
+    (load : List Str → Dict Str (List Int)) (hload : ∀ ts, ∀ t ∈ ts, ∃ ps, dget t (load ts) = some ps) :
+    (allTopics (memberMetadata ms) = [] ∧ leaderAssign w load = .error .assertion) ∨
+    (allTopics (memberMetadata ms) ≠ [] ∧
+      ∃ asg, roundRobin (memberMetadata ms) (load (sortBy strLe (allTopics (memberMetadata ms)))) = .ok asg ∧
+        leaderAssign w load = encodeEach asg ms) :=
+  leaderAssign_spec hd load hload
+
 /-! ## Non-vacuity: concrete inputs meeting the hypotheses, and monitors that can fail -/
 
 /-- "b" wants t1,t2; "a" wants t1; "c" is alone on t3 (which has no partitions). Listed unsorted. -/
@@ -123,6 +177,20 @@ example : encodable [([116, 49], [0, 2147483647, -2147483648]), ([116], [])] = t
     (keys ([([116, 49], [0, 2147483647, -2147483648]), ([116], [])] : Dict Str (List Int))).Nodup := by decide
 example : encodable [([233], [0])] = false ∧ encodable [([116], [2147483648])] = false := by decide
 example : exMembers.reverse.Perm exMembers := List.reverse_perm _
+example : TpInRange exTp ∧ (atpOf exTp (allTopics (memberMetadata exMembers))).length < 2147483648 := by decide
+example : (wireOf exMembers).toOption.isSome = true := by decide +kernel
+example : ∀ (ts : List Str), ∀ t ∈ ts, ∃ ps, dget t ((fun (ts : List Str) => ts.map (fun t => (t, ([0, 1] : List Int)))) ts) = some ps := by
+  intro ts t ht
+  induction ts with
+  | nil => simp at ht
+  | cons a ts ih =>
+    by_cases h : a = t
+    · exact ⟨[0, 1], by simp [dget, h]⟩
+    · rcases List.mem_cons.mp ht with rfl | ht
+      · exact absurd rfl h
+      · obtain ⟨ps, hps⟩ := ih ht
+        exact ⟨ps, by simp [dget, h, hps]⟩
+example : utf8Encode [0x1F600, 0xE9, 0x41] = .ok [0xF0, 0x9F, 0x98, 0x80, 0xC3, 0xA9, 0x41] := by rfl
 -- the need / assertion outcomes of `C15_terminates` occur
 example : roundRobin (memberMetadata exMembers) [] = .error (.need [[116, 49], [116, 50], [116, 51]]) := by rfl
 example : roundRobin (memberMetadata [([98], [])]) exTp = .error .assertion := by rfl
@@ -145,6 +213,11 @@ C15_codec_roundtrip
 C15_codec_roundtrip_of_ok
 C15_member_decodes_own
 C15_end_to_end
+C15_in_range_total
+C15_metadata_roundtrip
+C15_utf8
+C15_wire_members
+C15_leader_glue
 -/
 /- OPEN_STATEMENTS
 -/
